@@ -72,7 +72,10 @@ pub fn documented_valid(proto: &[Rec], registered: &[&str]) -> Option<bool> {
     for r in proto {
         if let Some(ns) = &r.ns {
             let ok_name = |s: &str| {
-                !s.is_empty() && !s.to_lowercase().starts_with("xml") && s.chars().all(|c| c.is_ascii_alphanumeric() || c == '_' || c == '-')
+                !s.is_empty()
+                    && !s.to_lowercase().starts_with("xml")
+                    && s.chars().all(|c| c.is_ascii_alphanumeric() || c == '_' || c == '-')
+                    && !s.starts_with(|c: char| c.is_ascii_digit() || c == '-')
             };
             if !ok_name(ns) || !ok_name(&r.name) || !registered.contains(&ns.as_str()) {
                 return Some(false);
